@@ -64,8 +64,12 @@ def run_gosym(pid, sp, idx):
         cmd += ['-overlay', '%s=>%s' % (os.path.join(VERIF, d), target)]
     if sp['interp']:
         cmd += ['-interp', ','.join(sp['interp'])]
-    if sp['init']:
-        cmd += ['-init', ','.join(sp['init'])]
+    # packages executed from their SSA need their package-level variables: run their init functions too (go/token's
+    # token table, go/ast's kind strings, astutil's abort sentinel); without it Token.String() returned "" in the
+    # engine only, which made astutil.PathEnclosingInterval pick another path than natively
+    inits = [p for p in ('go/token', 'go/ast', 'golang.org/x/tools/go/ast/astutil') if p in (sp['interp'] or []) and p not in sp['init']] + list(sp['init'])
+    if inits:
+        cmd += ['-init', ','.join(inits)]
     for k, v in sp['params'].items():
         cmd += ['-param', '%s=%d' % (k, v)]
     for k, v in sp['extra_overlay'].items():
